@@ -11,12 +11,12 @@ func C13Wire(c *vf.Ctx) {
 	e := newWireEngine(c, true)
 	q := c.Quick()
 	plan := []reasmCfg{
-		{label: "C13 wire: hostile tails after <=2 frames, Max in {1,64}", cfgs: "{<<1,2,2>>,<<64,2,2>>}", idRels: idsFull, kindRels: kindsBoth, ctls: "BOOLEAN", pays: paysFull, fins: finsAll, allEvery: 256, nRandom: 3},
+		{label: "C13 wire: hostile tails after <=2 frames, Max in {1,64}", cfgs: "{<<1,2,1>>,<<64,2,1>>}", idRels: idsFull, kindRels: kindsBoth, ctls: "BOOLEAN", pays: paysFull, fins: finsAll, allEvery: 256, nRandom: 3},
 		{label: "C13 wire: hostile tails, Max in {4067,4069}", cfgs: "{<<4067,1,1>>,<<4069,1,1>>}", idRels: idsNoLs, kindRels: kindsBoth, ctls: "BOOLEAN", pays: paysEdge, fins: finsAll, allEvery: 1, nRandom: 3},
 	}
 	if !q {
 		plan = append(plan,
-			reasmCfg{label: "C13 wire: depth 3, Max=2", cfgs: "{<<2,3,3>>}", idRels: idsNoLs, kindRels: kindsBoth, ctls: "BOOLEAN", pays: paysEdge, fins: `{"eof","noprog"}`, allEvery: 256, nRandom: 3},
+			reasmCfg{label: "C13 wire: depth 3, Max=2", cfgs: "{<<2,3,1>>}", idRels: idsNoLs, kindRels: kindsBoth, ctls: "BOOLEAN", pays: paysEdge, fins: `{"eof","noprog"}`, allEvery: 256, nRandom: 3},
 			reasmCfg{label: "C13 wire: default Max", cfgs: "{<<4194304,1,1>>}", idRels: idsUp, kindRels: `{"same"}`, ctls: "{FALSE}", pays: paysEdge, fins: `{"eof"}`, allEvery: 1, light: true, workers: 8})
 	}
 	for _, rc := range plan {
